@@ -121,10 +121,13 @@ def run(ctx):
         jobs.append((('pos', name), PRE % stmt))
     for name, prog, ok in regs:
         jobs.append((('pos' if ok else 'neg', name), prog))
-    compilers = [('g++', g)]
+    # the grid is compiled against the model backend with a 16-bit pointer representation and again with a pointer-wide
+    # (64-bit) one: shortcuts in the library keyed on "same width as a host pointer" are reachable only under the second
+    compilers = [('g++', g), ('g++/p64', G(ctx, 'g02p64', defs=['G_PTR_T=uint64_t']))]
     if ctx.thorough:
         try:
             compilers.append(('clang++', G(ctx, 'g02', compiler='clang++')))
+            compilers.append(('clang++/p64', G(ctx, 'g02p64', compiler='clang++', defs=['G_PTR_T=uint64_t'])))
         except Exception as e:
             ctx.note('clang++ pass not available: %s' % str(e)[:100])
     r = ctx.result
@@ -134,10 +137,10 @@ def run(ctx):
         for (pol, name), (acc, diag, path) in res.items():
             nacc += acc
             if pol == 'neg' and acc:
-                r.viols.append(dict(sig='C02 part=grid shape=%s kind=accepted%s' % (name, '' if cname == 'g++' else '(clang)'), case=json.dumps(dict(name=name)),
+                r.viols.append(dict(sig='C02 part=grid shape=%s kind=accepted%s' % (name, '' if cname == 'g++' else '(%s)' % cname), case=json.dumps(dict(name=name, variant=cname)),
                                     detail='this program compiles: %s' % name, noreplay=True))
             if pol == 'pos' and not acc:
-                r.viols.append(dict(sig='C02 part=grid shape=%s kind=control-rejected%s' % (name, '' if cname == 'g++' else '(clang)'), case=json.dumps(dict(name=name)),
+                r.viols.append(dict(sig='C02 part=grid shape=%s kind=control-rejected%s' % (name, '' if cname == 'g++' else '(%s)' % cname), case=json.dumps(dict(name=name, variant=cname)),
                                     detail='positive control no longer compiles (the grid would be vacuous): %s :: %s' % (name, diag[:160]), noreplay=True))
     r.stat['programs'] = len(jobs) * len(compilers)
     r.stat['accepted_programs'] = nacc
@@ -163,7 +166,8 @@ def replay(ctx, rp):
             print('VIOLATION property=C02 replay=(this file)')
             return 1
         return 0
-    g = G(ctx, 'g02r')
+    v = c.get('variant', 'g++')
+    g = G(ctx, 'g02r', compiler=v.split('/')[0], defs=['G_PTR_T=uint64_t'] if v.endswith('/p64') else [])
     neg, pos, regs = grid()
     for name, stmt in neg + pos:
         if name == c['name']:
